@@ -3,7 +3,7 @@
     Run from the directory that should receive model.ml / model.mli. *)
 From Coq Require Import ExtrOcamlBasic.
 From Coq Require Import List NArith ZArith.
-From WB Require Import Num Base Props World Kernels Features Plume Bezier Apps Dat Grid Validate SlabSpec SlabModel SlabFeature BezierSph Quat.
+From WB Require Import Num Base Props World Kernels Features Plume Bezier Apps Dat Grid Validate Mt19937 SlabSpec SlabModel SlabFeature BezierSph Quat.
 
 Extraction Language OCaml.
 Extraction "model.ml"
@@ -16,6 +16,7 @@ Extraction "model.ml"
   bezier_build bezier_eval closest_point_cartesian closest_point_spherical
   cells2 cells3 cells_chunk2 cells_annulus filter_mesh
   doc_ok group_velocities
+  mt_outputs mt_tape_list
   planar_distance slab_member fault_member
   distance_point_from_curved_planes line_to_feature lf_distances lf_covers line_of_layout line_of_layout_gen distance_point_from_curved_planes_sph
   euler_matrix
